@@ -130,6 +130,7 @@ let parse_req c : (z * request) option =
   | _ -> None
 
 let unmodelled = ref false
+let unmodelled_any = ref false
 
 let handle_line line =
   let c = mk line in
@@ -137,7 +138,7 @@ let handle_line line =
   match next c with
   | "CASE" ->
       case_id := next c; ignore (next c); case_cfg := next_z c; case_t0 := next_z c;
-      case_reqs := []; case_script := []; unmodelled := false
+      case_reqs := []; case_script := []; unmodelled := false; unmodelled_any := false
   | "REQ" ->
       (match parse_req c with
        | Some r -> case_reqs := r :: !case_reqs
@@ -184,7 +185,118 @@ let handle_line line =
        | None -> print_endline "T -")
   | t -> failwith ("unknown command " ^ t)
 
+
+(* ---- parsing observation lines (the implementation's, or the model's own) ---- *)
+let dummy_url = { u_scheme = []; u_host = []; u_path = []; u_query = []; u_force_query = false }
+
+let rec read_event c : event =
+  match next c with
+  | "G" -> let k = next_b c in let f = next_int c = 1 in EvGetRefs (k, f)
+  | "g" -> let k = next_b c in let f = next_int c = 1 in EvGetEntry (k, f)
+  | "S" ->
+      let k = next_b c in
+      let body = next_z c in
+      let status = next_z c in
+      let ra = next_z c in
+      let rb = next_z c in
+      let h = read_headers c in
+      EvSetEntry (k, { e_status = status; e_hdr = h; e_body = body; e_req_at = ra; e_recv_at = rb })
+  | "I" ->
+      let k = next_b c in
+      let n = next_int c in
+      let l = rep n (fun () ->
+        match next c with
+        | "N" -> None
+        | _ ->
+            let id = next_b c in
+            let vary = next_b c in
+            let recv = next_z c in
+            let nr = next_int c in
+            let res = rep nr (fun () -> let a = next_b c in let b = next_b c in (a, b)) in
+            Some { r_id = id; r_vary = vary; r_resolved = res; r_recv = recv }) in
+      EvSetRefs (k, l)
+  | "D" -> let k = next_b c in let f = next_int c = 1 in EvDel (k, f)
+  | "C" ->
+      let idx = next_z c in
+      let t0 = next_z c in
+      let t1 = next_z c in
+      let kind = next c in
+      let m = next_b c in
+      let h = read_headers c in
+      EvCall (idx, { q_method = m; q_url = dummy_url; q_hdr = h }, t0, t1,
+              (if kind = "E" then RErr
+               else RResp { p_status = Z0; p_hdr = []; p_body = Z0; p_body_ok = true }))
+  | "F" -> (* a store write that the fault injector suppressed: not an event of the store *)
+      ignore (read_event c); EvGetRefs ([], false)
+  | t -> failwith ("unknown event " ^ t)
+
+let read_events c : event list =
+  let n = next_int c in
+  if n < 0 then [] else rep n (fun () -> read_event c)
+
+(* "X case k t0 t1 <res> ... <fg events> <bgok> <bg events>" -> (case, k, obs) *)
+let parse_obs line : string * int * exchange_obs =
+  let c = mk line in
+  ignore (next c);
+  let case = next c in
+  let k = next_int c in
+  let t0 = next_z c in
+  let t1 = next_z c in
+  let res =
+    match next c with
+    | "R" ->
+        let status = next_z c in
+        let body = next_z c in
+        let ok = next_int c = 1 in
+        let h = read_headers c in
+        Done (OResp { p_status = status; p_hdr = h; p_body = body; p_body_ok = ok })
+    | "E" -> Done OErr
+    | "P" -> Crashed
+    | "Z" -> Done OPanic
+    | _ -> OutOfModel in
+  let fg = read_events c in
+  let bgok = next_int c = 1 in
+  let bg = read_events c in
+  (case, k, { x_t0 = t0; x_t1 = t1; x_result = res; x_events = fg; x_bg_ok = bgok; x_bg_events = bg })
+
+let verdict_str = function VNa -> "na" | VOk -> "ok" | VBad c -> "bad:" ^ dec_of_z c
+let how_str = function
+  | FromOrigin i -> "origin:" ^ dec_of_z i | Validated i -> "validated:" ^ dec_of_z i
+  | FromStore -> "store" | Synth504 -> "504" | Failed -> "err" | Panicked -> "panic" | Other -> "other"
+
+let monitor_mode cases_file obs_file =
+  let tbl : (string, (int * exchange_obs) list) Stdlib.Hashtbl.t = Stdlib.Hashtbl.create 1024 in
+  let ic = open_in obs_file in
+  (try while true do
+     let line = input_line ic in
+     if String.length line > 0 then begin
+       let (case, k, o) = parse_obs line in
+       let prev = try Stdlib.Hashtbl.find tbl case with Not_found -> [] in
+       Stdlib.Hashtbl.replace tbl case ((k, o) :: prev)
+     end
+   done with End_of_file -> close_in ic);
+  let ic = open_in cases_file in
+  (try while true do
+     let line = input_line ic in
+     let c = mk line in
+     if Array.length c.toks > 0 then
+       match c.toks.(0) with
+       | "END" ->
+           let obs = try List.rev (Stdlib.Hashtbl.find tbl !case_id) with Not_found -> [] in
+           let reqs = Array.of_list (List.rev !case_reqs) in
+           if not !unmodelled_any then begin
+             let h = List.filter_map (fun (k, o) ->
+               if k < Array.length reqs then Some (snd reqs.(k), o) else None) obs in
+             let vs = monitor_history (List.rev !case_script) h in
+             List.iteri (fun k v ->
+               print_endline (Printf.sprintf "M %s %d how=%s C01=%s C02=%s C18=%s" !case_id k
+                 (how_str v.vd_how) (verdict_str v.vd_C01) (verdict_str v.vd_C02) (verdict_str v.vd_C18))) vs
+           end
+       | _ -> handle_line line
+   done with End_of_file -> close_in ic)
+
 let () =
+  if Array.length Sys.argv > 3 && Sys.argv.(1) = "--monitor" then monitor_mode Sys.argv.(2) Sys.argv.(3) else
   let ic = if Array.length Sys.argv > 1 then open_in Sys.argv.(1) else stdin in
   (try
     while true do
